@@ -127,6 +127,7 @@ def norm_ty(t):
     t = re.sub(r"'\w+\s*", "", t)          # lifetimes ('_ , 'a, 'static)
     t = t.replace("<, ", "<").replace("<>", "")
     t = re.sub(r"\s+", " ", t)
+    t = t.replace("::<", "<")
     # closures keep their id verbatim
     parts = re.split(r"(\{closure@[^}]*\})", t)
     out = []
@@ -134,7 +135,7 @@ def norm_ty(t):
         if p.startswith("{closure@"):
             out.append(p)
         else:
-            out.append(re.sub(r"\b(?:[A-Za-z_][A-Za-z0-9_]*::)+(?=[A-Za-z_<\[])", "", p))
+            out.append(re.sub(r"\b(?:[A-Za-z_][A-Za-z0-9_]*::)+(?=[A-Za-z_\[])", "", p))
     t = "".join(out)
     t = t.replace("::<", "<")
     return t.strip()
